@@ -27,6 +27,14 @@ exact ties   : `ident` (a field of the case record) says equal lattice points ar
                snapped to the separation the code itself reports for that pair (bit-exact tie, same abstract
                radius); every call with a positive limit is accompanied by the unlimited call on the same
                object and inputs, and TLC demands "first k of every group of the unlimited answer".
+scale        : ConcatLaw / AcceptLaw of HtmMatch.tla (checked by TLC on the small scope): each group depends on its own
+               first-set point only, so the result for a concatenated first set is the concatenation of the results
+               for the parts.  TLC marks simulated lives as scale cases with sizes at and across 20000, 2^15, 2^16,
+               3*2^16 ...; the first set is tiled up to that size and the large result (memory or pair file) must be
+               the tiling of what the same code returns for the small call, which the exact oracle judges.
+dense sets   : scope "d" of HtmMatchMC (480 matcher points all round the circle) and seeded lives with 300-700 matcher
+               points (the whole 414-point rational sphere), searched with radii of 1-12 degrees at depths 5..11:
+               tree and cover both hold hundreds of leaf triangles, full and partial; judged by the exact oracle.
 off lattice  : for seeded generic point sets (uniform, clustered caps, poles, seam, duplicates) only
                relations between two implementation outputs are compared (depth d = depth d', Matcher =
                one-shot, file = memory, limited = prefix of unlimited - also with radii taken from
@@ -70,8 +78,8 @@ TIERS = {
     "quick": dict(
         mech=[_mech("q", 2, 2, 1, False), _mech("h", 2, 1, 1, True, ow=1)],
         jobs=[_job("sweep", "q", 2, 2, 1, False, "sweep", 2), _job("micro", "m", 2, 1, 1, False, "sweep", 2),
-              _job("hist", "h", 2, 1, 2, True, "each", 1), _job("overwrite", "h", 2, 1, 1, True, "each", 3, ow=1),
-              _job("dense", "d", 2, 1, 1, False, "sweep", 2),
+              dict(_job("hist", "h", 2, 1, 2, True, "each", 1), kinds=("gc",)),
+              _job("overwrite", "h", 2, 1, 1, True, "each", 3, ow=1), _job("dense", "d", 2, 1, 1, False, "sweep", 2),
               _job("sim", "s", 6, 4, 3, True, "each", 2, num=250, ow=1),
               _job("scale", "s", 6, 4, 1, True, "each", 1, num=4, scale=(20000, 65537))],
         depths=[1, 4, 8, 13], dense_depths=[6, 8, 10], seeded=900, seeded_n=6, seeded_variants=2, off=150, off_n=40,
@@ -1052,7 +1060,9 @@ def _run(ctx, T, only):
         c = dict(consts, Kind=kind, Deviation="none", DoExport=False, KMode="each")
         return ctx.tlc("HtmMatchMC.tla", what="mechanism refines property, state frozen [%s %s%s]" %
                        (kind, consts["Scope"], " per-point radii" if consts["PerPoint"] else ""),
-                       cfg_text=cfg(constants=c, invariants=["MechRefines", "RefAccepted", "AcceptLawHolds"], properties=["StateFrozen"]),
+                       cfg_text=cfg(constants=c, invariants=["MechRefines", "RefAccepted"] +
+                                    (["AcceptLawHolds"] if (not ctx.quick or consts["Scope"] == "h") else []),
+                                    properties=["StateFrozen"]),
                        workers=8, require=["AddP2", "New", "AddP1", "SelfCall", "ChooseRad", "ChooseK", "MechStep", "MechDone"] +
                        (["Overwrite"] if consts["MaxOw"] else []),
                        timeout=3000)
@@ -1082,7 +1092,7 @@ def _conformance(ctx, T, only):
     # 2. export the lives of the machine (spec -> code), execute them, judge what came back (code -> spec)
     st = _Stats()
     jobs = [(job, kind) for job in T["jobs"] if (not only or job["name"] in only)
-            for kind in (("gc",) if job["consts"]["Scope"] in ("m", "d") else ("gc", "rs"))]
+            for kind in job.get("kinds") or (("gc",) if job["consts"]["Scope"] in ("m", "d") else ("gc", "rs"))]
     with ThreadPoolExecutor(4) as ex:
         futs = [ex.submit(_export, ctx, kind, job) for job, kind in jobs]
         exported = [f.result() for f in futs]
@@ -1143,7 +1153,9 @@ def _conformance(ctx, T, only):
                 "from 8 great circles x eps / 8 octahedral images, depths %s (bounded by the intersection cost for large "
                 "radii), Matcher / one-shot, 6 array representations, memory / file, tie-snapped radii, shared work "
                 "buffers; lives with Overwrite events (caller overwrites the matcher's source arrays in place) exhaustive "
-                "over the tiny catalogue; a case is distinct by (abstract life, "
+                "over the tiny catalogue; dense matcher sets (>= 256 occupied triangles, covers of hundreds of triangles); "
+                "scale cases (first set tiled to 20000..262145 points, judged through the concatenation law from the "
+                "small call); a case is distinct by (abstract life, "
                 "concretisation) and non-trivial always (>= 1 point in each set)" %
                 ([j["num"] for j in T["jobs"] if j["num"]][0], T["seeded"], T["seeded_n"], T["depths"]))
     ctx.exhaustive = True
